@@ -26,6 +26,11 @@
 //!        -> panic | ok <n> {<seq:hex> form <position 0..3> <j> <protein index>*j}
 //!           (`Parameters::digest` on a FASTA of k target proteins `P0`..: every database entry with its protein
 //!            list and `position`; the same peptide at different protein positions in different proteins)
+//!   modjson <dupfield 0|1> <ns> {<key:hex> <kind> <f32>} <nv> {<key:hex> <kind> <n> <f32>*n}
+//!        -> err:json | ok <ns'> {<kind 0..4> <0|1 r> <f32>} <nv'> {<kind> <0|1 r> <n> <f32>*n}
+//!           (the harness renders a JSON search configuration with these mod-map members in this order and feeds it
+//!            to serde -> `sage_cli::input::Input` -> `Input::build`; the reply is the two mod maps of the built
+//!            `Parameters`, sorted by specificity)
 use super::Info;
 use crate::proto::{Case, Out, Rng, Tier, Toks};
 use sage_core::database::{Builder, EnzymeBuilder};
@@ -37,9 +42,9 @@ use std::collections::HashMap;
 use std::str::FromStr;
 use std::sync::Arc;
 
-pub const OPS: &[&str] = &["modkey", "apply", "dbforms", "dbdigest", "pepdisplay", "dbmulti"];
+pub const OPS: &[&str] = &["modkey", "apply", "dbforms", "dbdigest", "pepdisplay", "dbmulti", "modjson"];
 pub const INFO: Info = Info {
-    rule: "modkey: every string of length <= 2 (quick) / <= 3 (thorough) over the 12-character alphabet \
+    rule: "modkey (extended): EVERY two-byte character U+0080..U+07FF alone; for every letter A-Z a-z bare and after each marker the code points U+0100..U+0700+L, U+1000+L, U+2000+L, U+FF00+L, U+10000+L (low byte = the letter), full-width, mathematical bold, letter + combining mark, the lower-case letter, the doubled letter; Latin-1 letters after each marker; random UTF-8 of 1..8 bytes. rejected keys end to end: look-alike keys with a mass no valid key offers through apply and dbforms (clause invalid_key_accepted). modjson: JSON configurations (member order, repeated keys, wrong value types, NaN literal, null, negative zero, repeated field, keys outside the grammar incl. look-alikes) through serde -> Input -> Input::build. modkey: every string of length <= 2 (quick) / <= 3 (thorough) over the 12-character alphabet \
            ^ $ [ ] M K A Z B m e-acute '-', all 114 documented keys, every ASCII character alone and after each marker, \
            a few 3/4-byte characters. apply: peptides of length 0..8 (12 thorough) over a small residue alphabet \
            (so residues repeat), all four positions, max_variable_mods 0..4, 0..4 variable keys (residues of the \
@@ -234,6 +239,47 @@ fn run_multi(enzyme: &EnzymeBuilder, prots: &[String], max: usize, vars: &VarMod
     let params = builder.make_parameters();
     let fasta = Fasta::parse(multi_fasta(prots), "rev_", false);
     params.digest(&fasta)
+}
+
+/// exact JSON text of an f32 (the shortest decimal of the equal f64: parses back to exactly this value)
+fn json_num(m: f32) -> String {
+    if m == 0.0 && m.is_sign_negative() {
+        "-0.0".to_string()
+    } else {
+        format!("{:?}", m as f64)
+    }
+}
+
+/// a search configuration as JSON text; value kind 0 = well-typed, others = wrong type
+fn render_config(dup_field: bool, statics: &[(String, usize, f32)], vars: &[(String, usize, Vec<f32>)]) -> String {
+    let key = |k: &str| serde_json::to_string(k).unwrap();
+    let smembers: Vec<String> = statics.iter().map(|(k, kind, m)| {
+        let v = match kind {
+            0 => json_num(*m),
+            1 => "null".to_string(),
+            2 => format!("\"{}\"", json_num(*m)),
+            3 => format!("[{}]", json_num(*m)),
+            _ => "NaN".to_string(),
+        };
+        format!("{}: {}", key(k), v)
+    }).collect();
+    let vmembers: Vec<String> = vars.iter().map(|(k, kind, ms)| {
+        let list = ms.iter().map(|m| json_num(*m)).collect::<Vec<_>>().join(", ");
+        let v = match kind {
+            0 => format!("[{}]", list),
+            1 => ms.first().map(|m| json_num(*m)).unwrap_or_else(|| "1.0".into()),
+            2 => "null".to_string(),
+            3 => format!("[{}\"x\"]", if ms.is_empty() { String::new() } else { format!("{}, ", list) }),
+            _ => "[NaN]".to_string(),
+        };
+        format!("{}: {}", key(k), v)
+    }).collect();
+    let smap = format!("{{{}}}", smembers.join(", "));
+    let extra = if dup_field { format!("\"static_mods\": {}, ", smap) } else { String::new() };
+    format!(
+        "{{\"database\": {{\"fasta\": \"none.fasta\", {}\"static_mods\": {}, \"variable_mods\": {{{}}}}}, \
+          \"precursor_tol\": {{\"ppm\": [-10.0, 10.0]}}, \"fragment_tol\": {{\"ppm\": [-10.0, 10.0]}}, \"mzml_paths\": []}}",
+        extra, smap, vmembers.join(", "))
 }
 
 /// the real code: `try_from` + `apply`, mods prepared the way `Builder`/`Parameters::digest` prepare them
@@ -439,6 +485,59 @@ pub fn exec(op: &str, t: &mut Toks) -> Option<String> {
                 }
             }
         }
+        "modjson" => {
+            let dup = t.usize()? != 0;
+            let statics = t.list(|t| Some((t.string()?, t.usize()?, t.f32()?)))?;
+            let vars = t.list(|t| Some((t.string()?, t.usize()?, t.list(|t| t.f32())?)))?;
+            let json = render_config(dup, &statics, &vars);
+            match serde_json::from_str::<sage_cli::input::Input>(&json) {
+                Err(_) => {
+                    o.raw("err:json");
+                }
+                Ok(input) => match input.build() {
+                    Err(_) => {
+                        o.raw("err:build");
+                    }
+                    Ok(search) => {
+                        let spec_toks = |m: &ModificationSpecificity| -> Vec<u64> {
+                            let (kind, r) = match m {
+                                ModificationSpecificity::PeptideN(r) => (0u64, *r),
+                                ModificationSpecificity::PeptideC(r) => (1, *r),
+                                ModificationSpecificity::ProteinN(r) => (2, *r),
+                                ModificationSpecificity::ProteinC(r) => (3, *r),
+                                ModificationSpecificity::Residue(r) => (4, Some(*r)),
+                            };
+                            match r {
+                                None => vec![kind, 0],
+                                Some(r) => vec![kind, 1, r as u64],
+                            }
+                        };
+                        let mut srows: Vec<Vec<u64>> = search.database.static_mods.iter().map(|(k, m)| {
+                            let mut v = spec_toks(k);
+                            v.push(m.to_bits() as u64);
+                            v
+                        }).collect();
+                        srows.sort();
+                        let mut vrows: Vec<Vec<u64>> = search.database.variable_mods.iter().map(|(k, ms)| {
+                            let mut v = spec_toks(k);
+                            v.push(ms.len() as u64);
+                            v.extend(ms.iter().map(|m| m.to_bits() as u64));
+                            v
+                        }).collect();
+                        vrows.sort();
+                        o.raw("ok");
+                        for rows in [srows, vrows] {
+                            o.n(rows.len());
+                            for r in rows {
+                                for x in r {
+                                    o.n(x);
+                                }
+                            }
+                        }
+                    }
+                },
+            }
+        }
         "dbdigest" => {
             let mc = t.opt(|t| t.usize())?;
             let min_len = t.opt(|t| t.usize())?;
@@ -517,7 +616,7 @@ fn rand_key(rng: &mut Rng, seq: &str) -> String {
         0..=7 => some_resi(rng).to_string(),
         8..=11 => rng.pick(MARKERS).to_string(),
         12..=17 => format!("{}{}", rng.pick(MARKERS), some_resi(rng)),
-        18 => rng.pick(&["MK", "^Z", "é", "", "^^", "B", "m", "^MK", "$é"]).to_string(),
+        18 => rng.pick(&["MK", "^Z", "é", "", "^^", "B", "m", "^MK", "$é", "ō", "Ń", "ŋ", "œ", "Ｍ", "^ō", "ʍ"]).to_string(),
         _ => (*rng.pick(ALL_AA) as char).to_string(),
     }
 }
@@ -677,7 +776,7 @@ fn sm(v: &[(&str, f32)]) -> StaticMods {
     v.iter().map(|(k, m)| (k.to_string(), *m)).collect()
 }
 
-fn gen_modkey(tier: Tier, emit: &mut dyn FnMut(Case)) {
+fn gen_modkey(rng: &mut Rng, tier: Tier, emit: &mut dyn FnMut(Case)) {
     let alphabet: Vec<char> = vec!['^', '$', '[', ']', 'M', 'K', 'A', 'Z', 'B', 'm', 'é', '-'];
     let maxlen = if tier == Tier::Quick { 2 } else { 3 };
     let mut strings: Vec<String> = vec![String::new()];
@@ -715,6 +814,70 @@ fn gen_modkey(tier: Tier, emit: &mut dyn FnMut(Case)) {
     }
     for s in ["€", "^€", "😀", "^😀", "é", "^é", "éM", "Mé", "ÿ", "\u{80}", "^\u{80}", "\u{7ff}", "\u{800}", "Ａ", "^Ａ", "MKA", "^MK", "^^^", "M ", " M"] {
         emit(Case::new(req_key(s)).tag("modkey:unicode-and-long"));
+    }
+    // EVERY two-byte character alone (U+0080..U+07FF): the only non-ASCII keys that pass `s.len() <= 2`. Those whose
+    // code point's low byte is a residue letter (U+014D -> 'M') are the ones a `c as u8` without `is_ascii` misreads.
+    for cp in 0x80u32..0x800 {
+        let ch = char::from_u32(cp).unwrap();
+        let low = (cp & 0xff) as u8;
+        emit(Case::new(req_key(&ch.to_string()))
+            .tag("modkey:two-byte-char")
+            .tag_if(ALL_AA.contains(&low), "modkey:low-byte-is-residue"));
+    }
+    // look-alikes of every letter, bare and after each marker
+    let prefixes = ["", "^", "$", "[", "]"];
+    for l in (b'A'..=b'Z').chain(b'a'..=b'z') {
+        let up = l.to_ascii_uppercase();
+        let mut alikes: Vec<String> = Vec::new();
+        for hi in [0x100u32, 0x200, 0x300, 0x400, 0x500, 0x600, 0x700, 0x1000, 0x2000, 0xFF00, 0x10000, 0x1F600, 0xE0000] {
+            if let Some(c) = char::from_u32(hi + l as u32) {
+                alikes.push(c.to_string()); // low byte of the code point == the letter
+            }
+        }
+        alikes.push(char::from_u32(0xFF21 + (up - b'A') as u32).unwrap().to_string()); // full-width capital
+        alikes.push(char::from_u32(0xFF41 + (up - b'A') as u32).unwrap().to_string()); // full-width small
+        alikes.push(char::from_u32(0x1D400 + (up - b'A') as u32).unwrap().to_string()); // mathematical bold capital
+        alikes.push(format!("{}\u{301}", l as char)); // combining acute
+        alikes.push(format!("{}\u{30a}", l as char));
+        alikes.push((l as char).to_string());
+        alikes.push(format!("{}{}", l as char, l as char));
+        for a in &alikes {
+            for p in prefixes {
+                emit(Case::new(req_key(&format!("{}{}", p, a))).tag("modkey:look-alike"));
+            }
+        }
+    }
+    // Latin-1 letters after each marker (alone they are in the two-byte sweep)
+    for cp in 0xC0u32..0x100 {
+        let ch = char::from_u32(cp).unwrap();
+        for p in ["^", "$", "[", "]"] {
+            emit(Case::new(req_key(&format!("{}{}", p, ch))).tag("modkey:latin1"));
+        }
+    }
+    // random UTF-8 of 1..4 bytes (sometimes longer)
+    let n = if tier == Tier::Quick { 1500 } else { 60000 };
+    for _ in 0..n {
+        let budget = if rng.chance(1, 10) { 5 + rng.below(4) } else { 1 + rng.below(4) };
+        let mut s = String::new();
+        loop {
+            let cp = match rng.below(8) {
+                0 | 1 => rng.below(0x80) as u32,
+                2 => *rng.pick(&[b'^', b'$', b'[', b']']) as u32,
+                3 => *rng.pick(ALL_AA) as u32,
+                4 | 5 => 0x80 + rng.below(0x780) as u32,
+                6 => 0x800 + rng.below(0xF800) as u32,
+                _ => 0x10000 + rng.below(0x100000) as u32,
+            };
+            let ch = match char::from_u32(cp) { Some(c) => c, None => continue };
+            if s.len() + ch.len_utf8() > budget {
+                break;
+            }
+            s.push(ch);
+            if s.len() == budget {
+                break;
+            }
+        }
+        emit(Case::new(req_key(&s)).tag("modkey:random-utf8").tag_if(!s.is_ascii(), "modkey:non-ascii"));
     }
 }
 
@@ -1427,8 +1590,134 @@ fn gen_multi(rng: &mut Rng, tier: Tier, emit: &mut dyn FnMut(Case)) {
     }
 }
 
+// ------------------------------------------------------------------------------ rejected keys end to end, JSON config
+
+fn gen_rejected(rng: &mut Rng, emit: &mut dyn FnMut(Case)) {
+    // keys outside the grammar that a careless byte cast would read as a residue: their masses (7.5, 9.25, 3.25)
+    // are offered by no valid key, so any form carrying them shows the key was accepted
+    let alikes = ["ō", "Ń", "ŋ", "œ", "Ｍ", "m", "MK", "^ō", "$ŋ", "M\u{301}"];
+    for pos in 0..4 {
+        for a in alikes {
+            emit_apply(emit, "apply:rejected-key", pos, "MCMKS", 2, &vm(&[(a, &[7.5])]), &vec![]);
+            emit_apply(emit, "apply:rejected-key", pos, "MCMKS", 2, &vm(&[(a, &[7.5]), ("M", &[15.9949])]), &sm(&[("C", 57.021465)]));
+            emit_apply(emit, "apply:rejected-key", pos, "MCMKS", 2, &vm(&[("S", &[79.96633])]), &sm(&[(a, 9.25)]));
+            emit_apply(emit, "apply:rejected-key", pos, "MCMKS", 1, &vec![], &sm(&[(a, 9.25), ("K", 3.0)]));
+        }
+    }
+    for a in alikes {
+        emit_db(rng, emit, "db:rejected-key", "MCMKS", 2, &vm(&[(a, &[7.5])]), &vec![]);
+        emit_db(rng, emit, "db:rejected-key", "MCMKS", 2, &vm(&[(a, &[7.5]), ("M", &[15.9949])]), &sm(&[("C", 57.021465)]));
+        emit_db(rng, emit, "db:rejected-key", "MCMKS", 2, &vm(&[("S", &[79.96633])]), &sm(&[(a, 9.25)]));
+        emit_db(rng, emit, "db:rejected-key", "MCMKS", 1, &vec![], &sm(&[(a, 9.25), ("K", 3.0)]));
+    }
+}
+
+type SMember = (String, usize, f32);
+type VMember = (String, usize, Vec<f32>);
+
+fn req_json(dup: bool, statics: &[SMember], vars: &[VMember]) -> String {
+    let mut o = Out::new();
+    o.raw("modjson").b(dup).n(statics.len());
+    for (k, kind, m) in statics {
+        o.s(k).n(*kind).f32(*m);
+    }
+    o.n(vars.len());
+    for (k, kind, ms) in vars {
+        o.s(k).n(*kind).n(ms.len());
+        for m in ms {
+            o.f32(*m);
+        }
+    }
+    o.finish()
+}
+
+fn emit_json(emit: &mut dyn FnMut(Case), tag: &'static str, dup: bool, statics: &[SMember], vars: &[VMember]) {
+    let keys: Vec<&String> = statics.iter().map(|x| &x.0).collect();
+    let vkeys: Vec<&String> = vars.iter().map(|x| &x.0).collect();
+    let repeated = |ks: &Vec<&String>| ks.iter().enumerate().any(|(i, k)| ks[..i].contains(k));
+    let malformed = dup || statics.iter().any(|x| x.1 != 0) || vars.iter().any(|x| x.1 != 0);
+    let invalid = statics.iter().any(|x| !valid_key(&x.0)) || vars.iter().any(|x| !valid_key(&x.0));
+    let nonascii = statics.iter().any(|x| !x.0.is_ascii()) || vars.iter().any(|x| !x.0.is_ascii());
+    let negzero = statics.iter().any(|x| x.2.to_bits() == 0x8000_0000) || vars.iter().any(|x| x.2.iter().any(|m| m.to_bits() == 0x8000_0000));
+    emit(Case::new(req_json(dup, statics, vars))
+        .tag(tag)
+        .tag_if(repeated(&keys) || repeated(&vkeys), "json:repeated-key")
+        .tag_if(malformed, "json:malformed-value")
+        .tag_if(invalid, "json:key-outside-grammar")
+        .tag_if(nonascii, "json:non-ascii-key")
+        .tag_if(negzero, "json:negative-zero")
+        .nontrivial(!statics.is_empty() || !vars.is_empty()));
+}
+
+fn gen_json(rng: &mut Rng, tier: Tier, emit: &mut dyn FnMut(Case)) {
+    let s = |k: &str, kind: usize, m: f32| -> SMember { (k.to_string(), kind, m) };
+    let v = |k: &str, kind: usize, ms: &[f32]| -> VMember { (k.to_string(), kind, ms.to_vec()) };
+    // directed
+    emit_json(emit, "json:directed", false, &[], &[]);
+    emit_json(emit, "json:directed", false, &[s("C", 0, 57.021465), s("^", 0, 304.2071), s("K", 0, 304.2071)], &[v("M", 0, &[15.9949]), v("[", 0, &[42.010565]), v("S", 0, &[79.96633, -18.010565])]);
+    // the same members in another order
+    emit_json(emit, "json:directed", false, &[s("K", 0, 304.2071), s("C", 0, 57.021465), s("^", 0, 304.2071)], &[v("S", 0, &[79.96633, -18.010565]), v("[", 0, &[42.010565]), v("M", 0, &[15.9949])]);
+    // a repeated key keeps its last value (both orders)
+    emit_json(emit, "json:directed", false, &[s("C", 0, 57.021465), s("C", 0, 58.0)], &[v("M", 0, &[15.9949]), v("M", 0, &[1.0, 2.0])]);
+    emit_json(emit, "json:directed", false, &[s("C", 0, 58.0), s("C", 0, 57.021465)], &[v("M", 0, &[1.0, 2.0]), v("M", 0, &[15.9949])]);
+    emit_json(emit, "json:directed", false, &[s("C", 0, 58.0), s("K", 0, 1.0), s("C", 0, 57.021465)], &[]);
+    // a malformed value fails the document even when a later member repeats the key correctly
+    emit_json(emit, "json:directed", false, &[s("C", 3, 58.0), s("C", 0, 57.021465)], &[]);
+    emit_json(emit, "json:directed", false, &[s("C", 0, 57.021465), s("C", 1, 58.0)], &[]);
+    for kind in 1..=4usize {
+        emit_json(emit, "json:directed", false, &[s("C", kind, 57.021465)], &[v("M", 0, &[15.9949])]);
+        emit_json(emit, "json:directed", false, &[s("C", 0, 57.021465)], &[v("M", kind, &[15.9949])]);
+        emit_json(emit, "json:directed", false, &[s("ō", kind, 57.021465)], &[]);
+    }
+    emit_json(emit, "json:directed", true, &[s("C", 0, 57.021465)], &[]);
+    // negative zero, empty list, list with a repeated mass
+    emit_json(emit, "json:directed", false, &[s("C", 0, -0.0), s("K", 0, 0.0)], &[v("M", 0, &[-0.0, 0.0]), v("S", 0, &[]), v("T", 0, &[79.96633, 79.96633])]);
+    // keys outside the grammar are dropped, whatever they look like
+    for k in ["ō", "Ń", "ŋ", "œ", "Ｍ", "m", "MK", "^Z", "", "^ō", "M\u{301}", "é", " M", "M ", "\"", "\\", "\u{1}"] {
+        emit_json(emit, "json:directed", false, &[s(k, 0, 9.25), s("K", 0, 3.0)], &[v(k, 0, &[7.5]), v("M", 0, &[15.9949])]);
+        emit_json(emit, "json:directed", false, &[s(k, 0, 9.25)], &[v(k, 0, &[7.5])]);
+    }
+    // a look-alike next to the real key: must not overwrite it
+    emit_json(emit, "json:directed", false, &[s("M", 0, 1.0), s("ō", 0, 9.25)], &[v("C", 0, &[2.0]), v("Ń", 0, &[7.5])]);
+    emit_json(emit, "json:directed", false, &[s("ō", 0, 9.25), s("M", 0, 1.0)], &[v("Ń", 0, &[7.5]), v("C", 0, &[2.0])]);
+
+    let n = if tier == Tier::Quick { 400 } else { 20000 };
+    let pool: Vec<String> = {
+        let mut p: Vec<String> = Vec::new();
+        for &r in b"MCKSTA" {
+            p.push((r as char).to_string());
+            for m in MARKERS {
+                p.push(format!("{}{}", m, r as char));
+            }
+        }
+        for m in MARKERS {
+            p.push(m.to_string());
+        }
+        for k in ["ō", "Ń", "ŋ", "œ", "ŧ", "Ｍ", "m", "MK", "^Z", "", "é", "B", "^ō", "\u{14D}\u{41}", "𝐌"] {
+            p.push(k.to_string());
+        }
+        p
+    };
+    for _ in 0..n {
+        let kind = |rng: &mut Rng| -> usize { if rng.chance(1, 25) { 1 + rng.below(4) } else { 0 } };
+        let mut statics: Vec<SMember> = Vec::new();
+        for _ in 0..rng.below(6) {
+            let k = if !statics.is_empty() && rng.chance(1, 5) { statics[rng.below(statics.len())].0.clone() } else { rng.pick(&pool).clone() };
+            let m = if rng.chance(1, 20) { -0.0 } else { mass(rng) };
+            statics.push((k, kind(rng), m));
+        }
+        let mut vars: Vec<VMember> = Vec::new();
+        for _ in 0..rng.below(5) {
+            let k = if !vars.is_empty() && rng.chance(1, 5) { vars[rng.below(vars.len())].0.clone() } else { rng.pick(&pool).clone() };
+            let ms: Vec<f32> = (0..rng.below(4)).map(|_| mass(rng)).collect();
+            vars.push((k, kind(rng), ms));
+        }
+        emit_json(emit, "json:random", rng.chance(1, 60), &statics, &vars);
+    }
+}
+
 pub fn gen(rng: &mut Rng, tier: Tier, emit: &mut dyn FnMut(Case)) {
-    gen_modkey(tier, emit);
+    gen_modkey(rng, tier, emit);
     gen_directed(emit);
     gen_small_scope(tier, emit);
     gen_random(rng, tier, emit);
@@ -1436,4 +1725,6 @@ pub fn gen(rng: &mut Rng, tier: Tier, emit: &mut dyn FnMut(Case)) {
     gen_long(rng, tier, emit);
     gen_digest(rng, tier, emit);
     gen_multi(rng, tier, emit);
+    gen_rejected(rng, emit);
+    gen_json(rng, tier, emit);
 }
